@@ -4,13 +4,13 @@
        X0  49=a  56=b  34=1  52=t  X1  98=0  108=3  X2 [X3 X4]
    the six fixed tokens are the mandatory fields of header and Logon (one of them may be dropped: selector cx_drop);
    every Xi is absent or a token whose tag is chosen from MENU (header/body/trailer tags, a tag of another message,
-   a tag outside the field table, tags == known tag mod 65536, a repeat of the preamble) with a value of 1..2 symbolic
-   bytes.  The oracle is a reference acceptor over the token list and the same trait tables (codec_tables.h). */
+   a tag outside the field table, tags == known tag mod 65536, a repeat of the preamble) with a value of 2..6 symbolic
+   bytes (tag digits + value bytes = 7, so that every token is 9 bytes wide).  The oracle is a reference acceptor over the token list and the same trait tables (codec_tables.h). */
 #ifndef NX
 #define NX 3
 #endif
 #define NEL 3
-#define VMAXB 3
+#define VMAXB 6
 #define MAXMSG (20 + 6 * 6 + NX * 9 + 7 + 2)
 #define RMAX (6 + NX + 1)
 #include "codec_world.h"
@@ -39,11 +39,11 @@ static const struct tokdef MENU[] = {
 #define ABSENT 255
 /* token list in message order (fixed and chosen ones) */
 #define NTOK (6 + NX)
-static uint32_t T_num[NTOK]; static uint8_t T_on[NTOK], T_vlen[NTOK], T_val[NTOK][2]; static uint32_t T_off[NTOK], T_end[NTOK]; static int nt;
+static uint32_t T_num[NTOK]; static uint8_t T_on[NTOK], T_vlen[NTOK], T_val[NTOK][6]; static uint32_t T_off[NTOK], T_end[NTOK]; static int nt;
 static uint32_t o;
 static void put(uint8_t c) { __CPROVER_assume(o < MAXMSG); W_buf[o] = c; o++; }
 static void puts_(const char *s, int n) { for (int i = 0; i < n; i++) put((uint8_t)s[i]); }
-uint8_t cx_ch[NX], cx_v0[NX], cx_v1[NX], cx_vl[NX], cx_drop, cx_cs[3], cx_nochk, cx_perm = PERM, cx_accept, cx_exc, cx_t2 = '=', cx_t6 = SOH;
+uint8_t cx_ch[NX], cx_v[NX][6], cx_drop, cx_cs[3], cx_nochk, cx_perm = PERM, cx_accept, cx_exc, cx_t2 = '=', cx_t6 = SOH;
 uint8_t cx_msg[MAXMSG]; uint32_t cx_len, cx_sum;
 static void tok_fixed(const char *tag, int tl, uint32_t num, uint8_t v, int dropped)
 {
@@ -51,20 +51,38 @@ static void tok_fixed(const char *tag, int tl, uint32_t num, uint8_t v, int drop
   if (!dropped) { puts_(tag, tl); put('='); put(v); put(SOH); }
   T_end[nt] = o; nt++;
 }
+/* a chosen token occupies a slot of exactly 9 bytes at a position known when the harness is compiled (which slots are
+   present is the compile-time mask PRES; the dropped mandatory token the compile-time DROP): tag (1..5 digits) '='
+   value (7 - digits symbolic bytes, 2..6) SOH.  Only the content of the slots is symbolic, never the layout. */
+#ifndef PRES
+#define PRES ((1 << NX) - 1)
+#endif
+#define SLOTW 9
 static void tok_x(int i)
 {
-  uint8_t c = nondet_u8(), v0 = nondet_u8(), v1 = nondet_u8(), vl = nondet_u8();
-#ifdef FIXCH
-  if (i >= NSYM) { c = FIXCH; vl = 1; }
-#endif
-  VF_ASSUME(c == ABSENT || c < NMENU); VF_ASSUME(vl >= 1 && vl <= 2);
-  VF_ASSUME(v0 != SOH && v0 != 0 && v1 != SOH && v1 != 0);     /* string values: no separator, no NUL (C06 covers raw data) */
+  uint8_t c = nondet_u8(), v[6];
+  for (int j = 0; j < 6; j++) { v[j] = nondet_u8(); VF_ASSUME(v[j] != SOH && v[j] != 0); }   /* string values: no separator, no NUL (C06 covers raw data) */
+  VF_ASSUME(c < NMENU);
 #ifdef MENUMASK
-  VF_ASSUME(c == ABSENT || ((MENUMASK >> c) & 1));
+  VF_ASSUME((MENUMASK >> c) & 1);
 #endif
-  cx_ch[i] = c; cx_v0[i] = v0; cx_v1[i] = v1; cx_vl[i] = vl;
-  T_on[nt] = c != ABSENT; T_vlen[nt] = vl; T_val[nt][0] = v0; T_val[nt][1] = v1; T_num[nt] = 0; T_off[nt] = o;
-  for (int m = 0; m < NMENU; m++) if (c == m) { T_num[nt] = MENU[m].num; puts_(MENU[m].txt, MENU[m].len); put('='); put(v0); if (vl == 2) put(v1); put(SOH); }
+#ifdef FIXCH
+  if (i >= NSYM) c = FIXCH;
+#endif
+  int on = (PRES >> i) & 1;
+  cx_ch[i] = on ? c : ABSENT; for (int j = 0; j < 6; j++) cx_v[i][j] = v[j];
+  T_on[nt] = on; T_num[nt] = 0; T_vlen[nt] = 0; T_off[nt] = o;
+  if (on) {
+    for (int m = 0; m < NMENU; m++) if (c == m) {
+      int L = MENU[m].len; T_num[nt] = MENU[m].num; T_vlen[nt] = (uint8_t)(7 - L);
+      for (int j = 0; j < L; j++) W_buf[o + j] = (uint8_t)MENU[m].txt[j];
+      W_buf[o + L] = '=';
+      for (int j = 0; j < 6; j++) if (j < 7 - L) { W_buf[o + L + 1 + j] = v[j]; }
+      W_buf[o + 8] = SOH;
+    }
+    for (int j = 0; j < 6; j++) T_val[nt][j] = v[j];
+    o += SLOTW;
+  }
   T_end[nt] = o; nt++;
 }
 static int in_tab(const FT *t, int n, uint32_t num) { for (int i = 0; i < n; i++) if (t[i].fnum == num) return 1; return 0; }
@@ -75,11 +93,10 @@ int main(void)
   W_setup();
   /* ---- build the message */
   puts_("8=FIX.4.2\001" "9=12\001" "35=A\001", 20);   /* (adjacent literals: CBMC misreads an octal escape followed by a digit) */
-  uint8_t drop = nondet_u8(); VF_ASSUME(drop <= 6);
-#ifdef DROP
-  drop = DROP;
+#ifndef DROP
+#define DROP 0
 #endif
-  cx_drop = drop;
+  const uint8_t drop = DROP; cx_drop = drop;            /* which mandatory token is left out (0 none): one query per value */
   tok_x(0);
   tok_fixed("49", 2, 49, 'a', drop == 1); tok_fixed("56", 2, 56, 'b', drop == 2); tok_fixed("34", 2, 34, '1', drop == 3); tok_fixed("52", 2, 52, 't', drop == 4);
   tok_x(1);
@@ -150,7 +167,8 @@ int main(void)
     int same = W_nrec == nexp;
     for (int j = 0; j < NTOK; j++) if (j < nexp && j < W_nrec) {
       int k = E_tok[j]; struct W_rec_s *r = &W_rec[j];
-      if (r->comp != E_comp[j] || r->tag != T_num[k] || r->vlen != T_vlen[k] || r->val[0] != T_val[k][0] || (T_vlen[k] == 2 && r->val[1] != T_val[k][1])) same = 0;
+      if (r->comp != E_comp[j] || r->tag != T_num[k] || r->vlen != T_vlen[k]) same = 0;
+      for (int q = 0; q < 6; q++) if (q < T_vlen[k] && r->val[q] != T_val[k][q]) same = 0;
       if (j > 0 && W_rec[j - 1].comp == r->comp && W_rec[j - 1].pos >= r->pos) same = 0;
     }
     VF_ASSERT(same, "C04: an accepted message retains every token: same component, tag and value text, in order");
